@@ -29,6 +29,6 @@ a4435b0 C01
 fbfc604 C16
 1f76e3e C17
 a8194b1 C18
-30690b9 C19
+8c3e854 C19
 1d0c48a C20
 LIST
